@@ -47,7 +47,7 @@ def cmd_import(src, prop):
         os.makedirs(out)
         shutil.copy(os.path.join(d, 'patch.diff'), os.path.join(out, 'patch.diff'))
         demo = open(os.path.join(d, 'demo.py')).read()
-        demo = re.sub(r"""(['"])/tmp/seed/[^'"]*?/src\1""", "__import__('os').environ.get('SEED_SRC', '/repo/src')", demo)
+        demo = re.sub(r"""(['"])/tmp/seed\d*/[^'"]*?/src\1""", "__import__('os').environ.get('SEED_SRC', '/repo/src')", demo)
         open(os.path.join(out, 'demo.py'), 'w').write(demo)
         if os.path.exists(os.path.join(d, 'notes.md')):
             shutil.copy(os.path.join(d, 'notes.md'), os.path.join(out, 'author_notes.md'))
@@ -125,6 +125,10 @@ def cmd_detect(ids):
                     errors[p] = [l for l in out.splitlines() if l.startswith('ANALYSIS-ERROR')][:2]
         finally:
             sh(['git', '-C', '/repo', 'checkout', '--', '.'])
+        if 'detection' not in meta:      # the very first run against this change, before any tuning of the rules
+            meta['first_shot'] = 'detected' if meta.get('property') in fired else ('other property only' if fired else
+                                                                                  ('analysis-error only' if errors else 'missed'))
+            meta['first_shot_violations'] = fired
         meta['detection'] = {'violations': fired, 'analysis_errors': errors, 'target_detected': meta.get('property') in fired,
                              'detected_by_any': bool(fired)}
         save_meta(d, meta)
@@ -181,6 +185,8 @@ def cmd_benign(ids):
             sh(['git', '-C', '/repo', 'checkout', '--', '.'])
             sh(['git', '-C', '/repo', 'clean', '-fdq', 'src'])
         meta['tests_with_change'] = tail
+        if 'alarms' not in meta:      # the very first run against this refactoring, before any tuning of the rules
+            meta['first_shot_alarms'] = alarms
         meta['alarms'] = alarms
         save_meta(d, meta)
         print('%-18s tests: %-22s %s' % (sid, tail, 'silent' if not alarms else 'ALARMS %s' % sorted(alarms)))
